@@ -34,7 +34,7 @@ CLAIMED = {
  "C19": dict(
    text="Real u64_to_hex/hex_to_u64 bodies executed on a symbolic 64-bit n (forks over the 16 digit counts) with hex/int/format replaced by contract models over bounded symbolic strings: round trip == n, output alphabet [0-9a-f], no prefix/sign/padding, equal strings <=> equal ids; symbolic strings of every length 1..16 over [0-9a-fA-F] parse to the positional value, case-insensitively, and re-render canonically. The models are validated differentially against the real builtins on every run.",
    ref="DESIGN.md §4 C19",
-   note="The builtins hex/int/format are the environment: modelled per the language reference (trusted, validated on pinned values). Strings <= 20 chars; f-string/%-formatting refactors are reported inconclusive."),
+   note="The builtins hex/int/format are the environment: modelled per the language reference (trusted, validated on pinned values). Strings <= 20 chars. The module's string literals are lifted at source level (symx/strlift.py: literals -> KStr, f-strings -> model) so that %-formatting, str.format, f-strings, join and table indexing with symbolic operands stay symbolic; decimal rendering and bytes.fromhex/int.from_bytes are not modelled and end as INCONCLUSIVE, never as an alarm."),
  "C20": dict(
    text="get_num_cells/get_num_children with BOTH resolutions symbolic in -1..30: closed forms, num_cells(a)*num_children(a,r)==num_cells(r), 12/5/4 per-level product; len(cell_to_children) and len(uncompact) equal get_num_children for a symbolic cell at every resolution (fan-out <= 3); world expansion is duplicate-free, complete and counted by get_num_cells (r<=3); cell_area strictly decreasing, positive, and cell_area(r)*n within 1 ulp of the sphere area for symbolic r, bit-precise IEEE-754 (z3 FP).",
    ref="DESIGN.md §4 C20",
@@ -60,7 +60,7 @@ CLAIMED = {
    ref="DESIGN.md §4 C12",
    note="NOT decided: simplicity, counter-clockwise orientation, no 180-degree jump, span < 180 - geometry of the unprojected values. Cells are concrete (their face-plane vertices are concrete floats), the values of the unprojection are arbitrary within the contracts."),
  "C07": dict(
-   text="PARTIAL (lattice/face-plane level). (L) one-level drift lemma: with the flip state, the parent's last digit and the child's digit as fresh symbols the real _shift_digits/quaternary_to_kj/quaternary_to_flips/kj_to_ij and the real orientation post-transform yield, by solver AllSAT (final unsat = complete), the finite set of displacements anchor(child)-2*anchor(parent) with both cells' (k,flips): 64 per orientation, max planar centre-distance ratio 0.649; the same lemma for depths 2 and 3 (finite local state enumerated completely, ancestor offset and level symbolic) gives the exact maxima 0.923 and 1.076; (S) index reversal commutes with taking the parent for every level up to 28 and all indices; (V) the displacement set enumerated from the real s_to_anchor over ALL indices of levels 2..4 (thorough ..6) is contained in the lemma's set. Geometric tail: any descendant's centre is within R3 + R1/4 <= 1.245*sqrt(planar area) of its ancestor's centre.",
+   text="PARTIAL (lattice/face-plane level). (L) one-level drift lemma: with the flip state, the parent's last digit and the child's digit as fresh symbols the real _shift_digits/quaternary_to_kj/quaternary_to_flips/kj_to_ij and the real orientation post-transform yield, by solver AllSAT (final unsat = complete), the finite set of displacements anchor(child)-2*anchor(parent) with both cells' (k,flips): 64 per orientation, max planar centre-distance ratio 0.649; the same lemma for depths 2 and 3 (finite local state enumerated completely, ancestor offset and level symbolic) gives the exact maxima 0.923 and 1.076; (S) index reversal commutes with taking the parent for every level up to 28 and all indices; (V) the displacement set enumerated from the real s_to_anchor over ALL indices of levels 2..4 (thorough ..6) is contained in the lemma's set. (N) segments nest: the real _get_pentagon and _lonlat_to_estimate at resolutions 0..3, for every face (fork over the real table), segment and quintant, use the same quintant / segment below and above the first Hilbert resolution. Geometric tail: any descendant's centre is within R3 + R1/4 <= 1.245*sqrt(planar area) of its ancestor's centre.",
    ref="DESIGN.md §4 C07",
    note="NOT decided: the step to the sphere (great-circle distance <= 1.5*sqrt(cell_area)) needs the projection's length distortion <= 1.5/1.245 = 1.20; the premise that a child's upper-level processing equals its parent's is argued from the loop structure and validated on all indices of small levels only; the point corollary depends on C01. Witnesses above the planar limit are candidates replayed on the real API (cell_to_lonlat + haversine)."),
 }
